@@ -68,6 +68,10 @@ class Ctx:
         """Record a violation. `key` identifies the failing input/history class (matched against
         known_findings.json); replay_obj is written as the replay file."""
         self.nrep += 1
+        self.per_key = getattr(self, "per_key", {})
+        self.per_key[key] = self.per_key.get(key, 0) + 1
+        if self.per_key[key] > 3:
+            return None     # one defect, many witnesses: keep three replay files per key
         h = hashlib.sha1(json.dumps(replay_obj, sort_keys=True, default=str).encode()).hexdigest()[:10]
         path = os.path.join(REPLAYS, self.pid, "%s-%s.json" % (re.sub(r"[^A-Za-z0-9_.-]+", "_", key)[:60], h))
         with open(path, "w") as f:
@@ -113,6 +117,7 @@ class Ctx:
         if self.drift:
             cov["model_drift"] = self.drift[:5]
         cov["known_findings_seen"] = sorted(seen_known.keys())
+        cov["violation_witnesses_per_key"] = getattr(self, "per_key", {})
         cov["violations_new"] = [{"key": v["key"], "what": v["what"], "replay": v["replay"]} for v in new[:20]]
         if self.notes:
             cov["notes"] = self.notes
